@@ -1,6 +1,7 @@
 """C20  Timer events are computable, land on their moment, and keep recurring."""
 
 import ast
+import re
 import itertools
 
 from .. import AnalysisError
@@ -183,16 +184,21 @@ def rule12(ctx, rep):
             r2.fail(f'{f.qname}:dow-offset', where(f), 'no timedelta offset found in the day-of-week branch')
         else:
             days = arg(tds[0], 0, 'days')
-            today_defs = _local_def(f, 'today')
+            # the local that holds today's weekday (0 = Monday), found by what it is bound to, not by its name
+            tname = 'today'
+            for d_ in f.own_nodes():
+                if isinstance(d_, ast.Assign) and len(d_.targets) == 1 and isinstance(d_.targets[0], ast.Name) and 'isoweekday()' in norm(d_.value):
+                    tname = d_.targets[0].id
+            today_defs = _local_def(f, tname)
             bad = []
             try:
                 for dow, today in itertools.product(range(7), repeat=2):
-                    v = _arith(days, {'today': today}, dow)
+                    v = _arith(days, {tname: today}, dow)
                     if not 0 <= v < 7 or (today + v) % 7 != dow:
                         bad.append((dow, today, v))
                 r2.extra['dow_cases'] = 49
                 r2.check(
-                    not bad and len(today_defs) == 1 and norm(today_defs[0]) == 'now.isoweekday() - 1',
+                    not bad and len(today_defs) == 1 and re.fullmatch(r'\w+\.isoweekday\(\) - 1|\w+\.weekday\(\)', norm(today_defs[0])) is not None,
                     f'{f.qname}:dow-offset',
                     where(f, tds[0]),
                     'offset in [0, 7) days and lands on the requested weekday for all 49 (dow, today) pairs',
@@ -229,6 +235,11 @@ def _arith(e, env, dow):
 
 
 def _cmp(e, env, dow):
+    if isinstance(e, ast.UnaryOp) and isinstance(e.op, ast.Not):
+        return not _cmp(e.operand, env, dow)
+    if isinstance(e, ast.BoolOp):
+        vals = [_cmp(v, env, dow) for v in e.values]
+        return all(vals) if isinstance(e.op, ast.And) else any(vals)
     if isinstance(e, ast.Compare) and len(e.ops) == 1:
         a, b = _arith(e.left, env, dow), _arith(e.comparators[0], env, dow)
         op = e.ops[0]
